@@ -34,9 +34,10 @@ PLAN = {
     "quick": dict(types=["SO3d", "SE2d", "SE3d", "Gald", "SEK3_2d", "B3d", "SE3f", "C1f"],
                   model=[(2, "core")], deep=[], d2cap=120, sim=(12, 120), asan=False, procs=8, chunk=1200),
     "thorough": dict(types=["SO2d", "SO3d", "SE2d", "SE3d", "C1f", "Gald", "SEK3_2d", "SEK3_3d", "B3d", "B5d", "BNd", "SE3f", "Galf", "SE2f"],
-                     model=[(2, "full")], deep=[("SO2", 3, "core"), ("C1", 3, "core"), ("SO3", 3, "core")],
-                     d2cap=6000, sim=(80, 3000), asan=True, procs=10, chunk=2500),
+                     model=[(2, "full")], deep=[("SO2", 3, "core"), ("C1", 3, "core")],
+                     d2cap=4000, sim=(60, 2000), asan=True, procs=8, chunk=2500),
 }
+FULL_D2 = ("SO2", "C1", "SO3", "SE2", "SE3")      # model types whose full alphabet (<= 873 steps) is explored to depth 2
 SPEC_MUTANTS = [("alias", "SE3"), ("notemp", "SE2"), ("short", "SE2"), ("galso3", "Gal"), ("dofpsum", "B3")]
 
 ASSUME = [
@@ -314,8 +315,8 @@ def _check(oc, prop, tier, seed, replay, workdir):
     tasks = []
     for mt in mtypes:
         for depth, alpha in plan["model"]:
-            if alpha == "full" and mt in ("B5", "BN"):
-                continue        # 2112^2 histories: the core alphabet run ("d2" below) is the exhaustive depth-2 check for these
+            if alpha == "full" and mt not in FULL_D2:
+                continue        # > 10^6 histories: the core alphabet run ("d2" below) is the exhaustive depth-2 check for these
             tasks.append(("check", mt, depth, alpha, "-", None))
         tasks.append(("d1", mt, 1, "full", os.path.join(workdir, f"{mt}.d1.json"), None))
         tasks.append(("d2", mt, 2, "core", os.path.join(workdir, f"{mt}.d2.json"), None))
